@@ -305,6 +305,19 @@ def per_rules(ctx: Ctx):
         backward, n_term = False, it[2][0]
     else:
         raise AnalysisError(f"solve: loop header outside vocabulary: {show(it)}")
+    # the period may be computed from the loop variable (period = last - i): direction = header x sign of the index
+    signs = set()
+    for v in lp.next.values():
+        for s_ in walk(v):
+            if s_[0] == "sub" and s_[1][0] == "param" and s_[1][1] == SOLVE and s_[2][0] != "const":
+                af = affine(s_[2], lp.target)
+                signs.add(af[0] if af is not None and af[0] in (1, -1) else 0)
+    if signs == {-1}:
+        backward = not backward
+    elif signs != {1}:
+        backward = None if not backward else backward  # mixed / unrecognised index expressions: no verdict on direction
+        if signs - {1}:
+            backward = None
     ctx.ob("PER1:solve:backward", backward, prog.where(it),
            "the solver iterates periods from last to first" if backward else
            "the solver loop runs forward: V(t+1) is not available when period t is solved", lhs=it)
